@@ -1253,7 +1253,7 @@ def main(argv):
     args = vlib.main_args(argv)
     out = vlib.Outcome(PID, args.tier, args.seed)
     rng = vlib.rng_for(args.seed, PID)
-    n_cases = 700 if args.tier == "quick" else 20000
+    n_cases = 450 if args.tier == "quick" else 20000
     cov = {"obligations": 0, "discharged": 0,
            "checker_cmd": "cd /verif/coq && coq_makefile -f _CoqProject -o Makefile && make -j16 " + " ".join(TARGETS) + " && coqc -Q . Dae C19_Props.v (Print Assumptions captured)",
            "trusted_base": vlib.TRUSTED_BASE_COMMON + [
@@ -1275,6 +1275,7 @@ def main(argv):
         except Anchor as e:
             out.violation("translate", {"broken": "translator", "why": str(e)}, "C19 translator cannot read the anchored declarations: %s" % e, no_failing_input=True)
             return out.finish()
+        log("translated in %.1fs" % (vlib.time.time() - out.t0))
         vlib.write_if_changed(os.path.join(vlib.COQ, "gen", "C19_Decls.v"), txt)
         cov["declarations"] = {"c_translated": [d["kind"] + " " + d["name"] for d in info["c_decls"]], "c_kernel_only_skipped": info["c_skipped"],
                                "go": [k for k, _ in info["go_decl_list"]], "pairs": info["pairs"], "real_vs_stub": info["gopairs"],
@@ -1290,6 +1291,7 @@ def main(argv):
                 out.violation("tie", {"proof": pinfo["failed"], "check_build": mlog[-2000:]}, "C19 Coq development no longer builds", no_failing_input=True)
                 return out.finish()
 
+        log("proof stage done at %.1fs" % (vlib.time.time() - out.t0))
         # ---- 3. harnesses
         tie = []
         try:
@@ -1355,6 +1357,7 @@ def main(argv):
                               "map %s: kernel key/value size %s, control plane uses %s" % (mname, cmaps[mname][:2], (ks, vs))))
         n_layout_items = len(info["pairs"]) + len(info["gopairs"]) + len(info["consts"]) + len(MAP_TYPES)
 
+        log("layout stage done at %.1fs" % (vlib.time.time() - out.t0))
         # ---- 3b. key cases
         corpus = []
         cdir = os.path.join(vlib.VERIF, "corpus", PID)
